@@ -106,6 +106,17 @@ def random_unit(rng, descs, all_atom):
             desc.setdefault(a, []).append(dsc)
         if ok:
             r = M.render_fragment(rng, g, list(g.nodes), desc, opts={'explicit_single': 0.0})
+            if rng.random() < 0.2:
+                # bracket atoms: bare ([O], no hydrogen count written), with their hydrogen count, or with an annotation
+                # (weight, free key); the hydrogens of the product come from its connectivity either way
+                toks = list(r['tokens'])
+                for k, t in enumerate(toks):
+                    if t[0] == 'atom' and not t[1].startswith('[') and rng.random() < 0.5:
+                        d = g.nodes[t[2]]
+                        txt = M.atom_text(d, d['hcount'] if rng.random() < 0.5 else 0, bracket=True)
+                        ann = rng.choice(['', '', ';0.5', ';w=2', ';note=a', ';w=0.25;tag=q'])
+                        toks[k] = ('atom', txt[:-1] + ann + ']', t[2])
+                r = dict(r, text=M.tokens_text(toks))
             # stand-alone mass from the generator's own atoms and hydrogen counts (unused descriptors become H)
             mass = sum(M.MASS[g.nodes[n]['element']] + g.nodes[n]['hcount'] * M.MASS['H'] for n in g)
             return r['text'], len(g), mass
